@@ -228,6 +228,25 @@ pub fn run_prelude(case: &Value, src: &rspack_sources::BoxSource, obs: &mut crat
   }
 }
 
+/// Build the object under test; when the case says so, equal `Cached` nodes
+/// of the tree are one shared instance / clones sharing one cache (see
+/// `spec::share_cached_instances`). Reference objects are always built with
+/// `build_box` (no sharing).
+pub fn build_under_test(case: &Value, spec: &crate::spec::Spec, obs: &mut crate::obs::Obs) -> rspack_sources::BoxSource {
+  let share = case.get("share_instances").and_then(|v| v.as_bool()).unwrap_or(false);
+  if !share {
+    return crate::spec::build_box(spec);
+  }
+  crate::spec::share_cached_instances(true);
+  let b = crate::spec::build_box(spec);
+  let shared = crate::spec::shared_cached_hits();
+  crate::spec::share_cached_instances(false);
+  if shared > 0 {
+    obs.class("cached_instance_shared_between_places");
+  }
+  b
+}
+
 pub fn spec_of(case: &Value) -> crate::spec::Spec {
   serde_json::from_value(case["spec"].clone()).expect("case.spec")
 }
